@@ -31,6 +31,16 @@ CHECKS = {
          "For each deletion history (node deleted the same day, on a later day by another peer, racing with an update, reference deleted on another peer) every sequence of directed pulls among 3 real peers (4 in thorough) up to the length bound is executed with the real pull and serving routines; after every step a monitor checks that no peer holding the deletion record shows the row or reference at the deleted or an older version, and after round-robin quiescence that the row is absent and the deletion record present on every member.",
          "All members hold every right. The deletion record is the one written by the real deletion path. Bounds: order length 3 (quick) / 5 (thorough).",
          "DESIGN.md section 5 C11"),
+ "C02": ("model_checking",
+         "bounded-exhaustive enumeration of forged rows served by the honest serving code over a dishonest database, real pull on the victim, verdict vs the rights oracle",
+         "Every combination kind(11: new row, newer own/foreign version, move into the room, own/foreign node deletion record, reference on own/foreign source row, own/foreign reference deletion record) x author role(5) x row date(4), plus 10 integrity/JSON/entity variants on node kinds and two-row batches with an honest neighbour, is written unchecked (real signatures of any harness-held key) into the sender's database, advertised by its really computed daily log and pulled by the victim with the real synchronise_room; the forged item must be stored iff signature, room, model and the oracle's right for its author at its own date all hold, a rejected item must leave no row or log entry, and an honest neighbour must be stored whatever travels with it.",
+         "Trusts the rights oracle. Lies a database cannot express (row listed under a room it is not stored in, mismatching identifier list) and empty keys (C14) are not injected. One fixed room definition (admin, own-writer, all-writer, member disabled later, outsider).",
+         "DESIGN.md section 5 C02"),
+ "C12": ("model_checking",
+         "C01's exhaustive enumeration replayed differentially: local verdict vs the verdict of an honest peer's ingestion path on the very rows the local path produced (or would have produced)",
+         "For every room history (depth 1 quick / 2 thorough) x caller x 24 data operations, fixtures are planted on the caller's device and on an honest peer holding the same definition; a locally accepted operation's produced rows, references and deletion records are handed to the peer through the real ingestion entry points in synchronisation order and must all be stored; for a locally refused create/update/move/delete the equivalent correctly signed write is forged and must be refused by the peer too.",
+         "Peer side = the ingestion sequence of synchronise_day composed by the harness from the real entry points (not the log-driven pull, whose stalls belong to C03). Refused operations are forged for simple shapes only.",
+         "DESIGN.md section 5 C12"),
 }
 
 NOT_YET = {
